@@ -209,6 +209,7 @@ pub fn check(c: &Case) -> CheckResult {
     });
     o.class(if c.repeat { "extend:repeat" } else { "extend:pad" });
     o.class_if(outside, "samples-outside-image");
+    o.class_if(c.repeat && (m[4].abs() >= 16384.0 || m[5].abs() >= 16384.0) && c.img.w != c.img.h, "repeat-tile-more-than-16384-texels-away");
     o.class_if(dyadic_tr && c.nearest && !int_tr && ((m[4] + 0.5).fract() == 0.0 || (m[5] + 0.5).fract() == 0.0), "nearest-sample-exactly-on-texel-boundary");
     o.class(classify_xf(&c.ctm));
     Ok(o)
@@ -244,7 +245,7 @@ pub fn image_probe(maxw: i32, maxh: i32) -> BoxedStrategy<ImageSpec> {
 
 /// matrices within 1e-3 of an integer translation (a zoom of 1.0004, a rotation of half a milliradian) on long
 /// surfaces: treated as "close enough to a translation" they drift by whole texels within a few hundred pixels
-fn near_identity_strategy() -> BoxedStrategy<Case> {
+pub fn near_identity_strategy() -> BoxedStrategy<Case> {
     let near = prop_oneof![
         (prop::sample::select(vec![1.0e-4f32, -1.0e-4, 4.0e-4, -5.0e-4, 9.0e-4, -9.0e-4]), prop::sample::select(vec![0.0f32, 3.0e-4, -7.0e-4]), -4i32..=4, -4i32..=4).prop_map(|(e, f, x, y)| [1.0 + e, 0., 0., 1.0 + f, x as f32, y as f32]),
         (prop::sample::select(vec![5.0e-4f32, -5.0e-4, 9.0e-4, 2.0e-4]), -4i32..=4, -4i32..=4).prop_map(|(a, x, y)| [(a as f64).cos() as f32, (a as f64).sin() as f32, -(a as f64).sin() as f32, (a as f64).cos() as f32, x as f32, y as f32]),
@@ -259,8 +260,13 @@ fn near_identity_strategy() -> BoxedStrategy<Case> {
 pub fn strategy() -> BoxedStrategy<Case> {
     // images are mostly up to 8x8; one in forty is 257..300 texels long or tall (wrap-around and clamping beyond 256)
     let big = prop_oneof![(257i32..=300, 1i32..=2), (1i32..=2, 257i32..=300)].prop_flat_map(|(w, h)| prop::collection::vec(px_premul(), (w * h) as usize).prop_map(move |data| ImageSpec { w, h, data }));
-    (2i32..=16, 2i32..=16, prop_oneof![39 => image_probe(8, 8), 1 => big.boxed()], any::<bool>(), any::<bool>(), prop_oneof![2 => Just(1.0f32), 1 => Just(0.5f32), 1 => 0.0f32..=1.0], small_xf(), small_xf(), (0i32..=310, 0i32..=310), prop_oneof![14 => Just(1.0f32), 1 => Just(4096.0f32), 1 => Just(65536.0f32), 1 => Just(1.0f32 / 64.0)])
-        .prop_map(|(w, h, img, repeat, nearest, alpha, mut ctm, mut sxf, (bx, by), zoom)| {
+    // far tiles: the image's own transform moves it tens of thousands of texels away (a small tile repeated over a
+    // huge scaled canvas); still inside the 16.16 range of image coordinates
+    let far = prop_oneof![11 => Just((0i32, 0i32)), 1 => (prop_oneof![Just(0i32), 16000i32..=30000, -30000i32..=-16000], prop_oneof![Just(0i32), 16000i32..=30000, -30000i32..=-16000])];
+    (2i32..=16, 2i32..=16, prop_oneof![39 => image_probe(8, 8), 1 => big.boxed()], any::<bool>(), any::<bool>(), prop_oneof![2 => Just(1.0f32), 1 => Just(0.5f32), 1 => 0.0f32..=1.0], small_xf(), small_xf(), (0i32..=310, 0i32..=310), prop_oneof![14 => Just(1.0f32), 1 => Just(4096.0f32), 1 => Just(65536.0f32), 1 => Just(1.0f32 / 64.0)], far)
+        .prop_map(|(w, h, img, repeat, nearest, alpha, mut ctm, mut sxf, (bx, by), zoom, (fx, fy))| {
+            sxf[4] += fx as f32;
+            sxf[5] += fy as f32;
             // zoom: user units `zoom` times smaller; both the CTM (user to device) and the image's transform (user to
             // image) grow by the same factor, device-to-image space is the same map (powers of two: exact)
             if zoom != 1.0 {
